@@ -239,8 +239,8 @@ Proof.
 Qed.
 
 Ltac field_cases i Hi :=
-  cbn [List.length] in Hi;
-  repeat (destruct i as [|i]; [cbn [nth] | try (exfalso; lia)]).
+  match type of Hi with (_ < ?l)%nat => let n := eval vm_compute in l in change l with n in Hi end;
+  do 8 (try (destruct i as [|i]; [cbn [nth] | try (exfalso; lia)])).
 
 Theorem dec_dual_enc d : ok_dual d -> dec_dual (enc_dual d) = Ok d.
 Proof.
@@ -394,6 +394,272 @@ Proof.
     - destruct (parse_cals p0); cbn [obind] in E; try discriminate.
       destruct (parse_cals p1); cbn [obind] in E; try discriminate. injection E as <-. reflexivity. }
   rewrite Hn, named_lower. exact E.
+Qed.
+
+(* ------------------------------------------------------------------ curves *)
+Lemma dec_caltype_enc c :
+  match c with CTCal x => ok_cal x | CTUnion u => ok_ucal u | CTNamed n => ok_named n end ->
+  dec_caltype rebuild_named_expect (enc_caltype c : json) = Ok c.
+Proof.
+  destruct c as [x|u|n]; intros Hc; unfold dec_caltype, enc_caltype.
+  - rewrite (dec_tagged_one _ k_Cal (fun j => omap CTCal (dec_cal j))) by reflexivity.
+    rewrite dec_cal_enc by auto. reflexivity.
+  - rewrite (dec_tagged_one _ k_UnionCal (fun j => omap CTUnion (dec_ucal j))) by reflexivity.
+    rewrite dec_ucal_enc by auto. reflexivity.
+  - rewrite (dec_tagged_one _ k_NamedCal (fun j => omap CTNamed (dec_named rebuild_named_expect j))) by reflexivity.
+    rewrite dec_named_enc by auto. reflexivity.
+Qed.
+
+(* IndexMap<i64, V>: distinct keys inside the i64 range come back in the same order *)
+Lemma im_put_fresh {V} k (v : V) m : ~ In k (map fst m) -> im_put k v m = m ++ [(k, v)].
+Proof.
+  induction m as [|[k' v'] m IH]; intros Hn; cbn [im_put app]; auto.
+  destruct (Z.eqb_spec k k') as [->|Hne].
+  - exfalso. apply Hn. left; auto.
+  - f_equal. apply IH. intros C. apply Hn. right; auto.
+Qed.
+Lemma dec_imap_go_enc {V} (d : json -> outcome V) (e : V -> json) (m : list (Z * V)) :
+  forall acc, NoDup (map fst acc ++ map fst m) ->
+  (forall kv, In kv m -> i64_min <= fst kv <= i64_max /\ d (e (snd kv)) = Ok (snd kv)) ->
+  dec_imap_go d (map (fun kv => (KInt (fst kv), e (snd kv))) m) acc = Ok (acc ++ m).
+Proof.
+  induction m as [|[k v] m IH]; intros acc ND Hm; cbn [map dec_imap_go].
+  - rewrite app_nil_r. reflexivity.
+  - destruct (Hm (k, v) (or_introl eq_refl)) as [Hr Hd]. cbn [fst snd] in *.
+    destruct (Z.leb_spec i64_min k); [|lia]. destruct (Z.leb_spec k i64_max); [|lia]. cbn [andb].
+    rewrite Hd. cbn [obind].
+    assert (Hk : ~ In k (map fst acc)).
+    { intros C. apply NoDup_remove_2 in ND. apply ND. apply in_or_app. left; auto. }
+    rewrite im_put_fresh by auto. rewrite IH.
+    + rewrite <- app_assoc. reflexivity.
+    + rewrite map_app. cbn [map fst]. rewrite <- app_assoc. exact ND.
+    + intros kv Hkv. apply Hm. right; auto.
+Qed.
+Definition ok_imap {V} (okv : V -> Prop) (m : list (Z * V)) : Prop :=
+  NoDup (map fst m) /\ forall kv, In kv m -> i64_min <= fst kv <= i64_max /\ okv (snd kv).
+Lemma dec_imap_enc {V} (d : json -> outcome V) (e : V -> json) (okv : V -> Prop) m :
+  (forall v, okv v -> d (e v) = Ok v) -> ok_imap okv m -> dec_imap d (enc_imap e m) = Ok m.
+Proof.
+  intros Hd [ND Hm]. unfold dec_imap, enc_imap.
+  rewrite (dec_imap_go_enc d e m []); auto.
+  intros kv Hkv. destruct (Hm kv Hkv). split; auto.
+Qed.
+
+Definition ok_nodes (n : jnodes T) : Prop :=
+  match n with
+  | NdF m => ok_imap (fun _ => True) m
+  | NdD m => ok_imap ok_dual m
+  | NdD2 m => ok_imap ok_jdual2 m
+  end.
+Lemma dec_nodes_enc n : ok_nodes n -> dec_nodes (enc_nodes n) = Ok n.
+Proof.
+  destruct n as [m|m|m]; intros Hn; unfold dec_nodes, enc_nodes.
+  - rewrite (dec_tagged_one _ k_F64 (fun j => omap NdF (dec_imap dec_f64 j))) by reflexivity.
+    rewrite (dec_imap_enc dec_f64 JNum (fun _ => True)); auto.
+  - rewrite (dec_tagged_one _ k_Dual (fun j => omap NdD (dec_imap dec_dual j))) by reflexivity.
+    rewrite (dec_imap_enc dec_dual enc_dual ok_dual); auto. apply dec_dual_enc.
+  - rewrite (dec_tagged_one _ k_Dual2 (fun j => omap NdD2 (dec_imap dec_dual2 j))) by reflexivity.
+    rewrite (dec_imap_enc dec_dual2 enc_dual2 ok_jdual2); auto. apply dec_dual2_enc.
+Qed.
+Lemma dec_rule_enc r : (r < 6)%nat -> dec_rule (enc_rule r : json) = Ok r.
+Proof.
+  intros Hr. do 6 (destruct r as [|r]; [reflexivity|]). lia.
+Qed.
+Lemma dec_unit_enum_enc names i : NoDup names -> (i < List.length names)%nat ->
+  dec_unit_enum names (JStr (nth i names []) : json) = Ok i.
+Proof.
+  intros ND Hi. unfold dec_unit_enum.
+  assert (E : index_of (nth i names []) names = Some i).
+  { revert i Hi. induction names as [|x names IH]; intros i Hi; [cbn in Hi; lia|].
+    inversion ND; subst. destruct i as [|i]; cbn [nth index_of].
+    - rewrite name_eqb_refl. reflexivity.
+    - destruct (name_eqb (nth i names []) x) eqn:E.
+      + apply name_eqb_eq in E. exfalso. apply H2. rewrite <- E. apply nth_In. cbn in Hi. lia.
+      + rewrite IH; auto. cbn in Hi. lia. }
+  rewrite E. reflexivity.
+Qed.
+Lemma nodup_closed (l : list name) : nodupb l = true -> NoDup l.
+Proof. apply nodupb_spec. Qed.
+
+Definition ok_curve (c : jcurve T) : Prop :=
+  ok_nodes (cv_nodes c) /\ (cv_rule c < 6)%nat /\ (cv_conv c < 11)%nat /\ (cv_mod c < 5)%nat /\
+  match cv_cal c with CTCal x => ok_cal x | CTUnion u => ok_ucal u | CTNamed n => ok_named n end.
+Theorem dec_curvedf_enc c : ok_curve c -> dec_curvedf rebuild_named_expect (enc_curvedf c) = Ok c.
+Proof.
+  intros [Hn [Hr [Hc [Hm Hcal]]]]. unfold dec_curvedf, enc_curvedf.
+  pose proof (dec_nodes_enc _ Hn) as A0. pose proof (dec_rule_enc _ Hr) as A1.
+  assert (A3 : dec_unit_enum conv_names (JStr (nth (cv_conv c) conv_names []) : json) = Ok (cv_conv c)).
+  { apply dec_unit_enum_enc; [apply nodup_closed; reflexivity | exact Hc]. }
+  assert (A4 : dec_unit_enum mod_names (JStr (nth (cv_mod c) mod_names []) : json) = Ok (cv_mod c)).
+  { apply dec_unit_enum_enc; [apply nodup_closed; reflexivity | exact Hm]. }
+  assert (A5 : dec_opt dec_f64 (enc_opt JNum (cv_base c) : json) = Ok (cv_base c)).
+  { destruct (cv_base c); reflexivity. }
+  pose proof (dec_caltype_enc _ Hcal) as A6.
+  rewrite fields_of_enc.
+  - cbn [obind map slot nth req optf]. rewrite A0, A1, A3, A4, A5, A6. cbn [obind dec_str].
+    destruct c; reflexivity.
+  - apply nodup_closed. reflexivity.
+  - reflexivity.
+  - intros i Hi. field_cases i Hi; try (eapply chk_ok; eauto; fail). reflexivity.
+Qed.
+Theorem dec_curve_enc c : ok_curve c -> dec_curve rebuild_named_expect (enc_curve c) = Ok c.
+Proof.
+  intros Hc. unfold dec_curve, enc_curve. pose proof (dec_curvedf_enc c Hc) as A.
+  rewrite fields_of_enc.
+  - cbn [obind map slot nth req]. exact A.
+  - apply nodup_closed. reflexivity.
+  - reflexivity.
+  - intros i Hi. field_cases i Hi. eapply chk_ok; eauto.
+Qed.
+
+(* ------------------------------------------------------------------ FX *)
+Lemma dec_ccy_enc c : dec_ccy (enc_ccy c : json) = Ok c.
+Proof.
+  unfold dec_ccy, enc_ccy. rewrite fields_of_enc.
+  - reflexivity.
+  - apply nodup_closed. reflexivity.
+  - reflexivity.
+  - intros i Hi. field_cases i Hi. reflexivity.
+Qed.
+Definition ok_fxrate (r : jfxrate T) : Prop := ok_number (fr_rate r).
+Lemma dec_fxrate_enc r : ok_fxrate r -> dec_fxrate (enc_fxrate r) = Ok r.
+Proof.
+  intros Hr. unfold dec_fxrate, enc_fxrate.
+  assert (A0 : dec_pair (JArr [enc_ccy (fr_lhs r); enc_ccy (fr_rhs r)] : json) = Ok (fr_lhs r, fr_rhs r)).
+  { unfold dec_pair. rewrite !dec_ccy_enc. reflexivity. }
+  pose proof (dec_number_enc _ Hr) as A1.
+  assert (A2 : dec_opt dec_date (enc_opt JDate (fr_settle r) : json) = Ok (fr_settle r)).
+  { destruct (fr_settle r); reflexivity. }
+  rewrite fields_of_enc.
+  - cbn [obind map slot nth req optf]. rewrite A0, A1, A2. cbn [obind fst snd]. destruct r; reflexivity.
+  - apply nodup_closed. reflexivity.
+  - reflexivity.
+  - intros i Hi. field_cases i Hi; eapply chk_ok; eauto.
+Qed.
+(* reachable market: quotes well formed, currencies duplicate-free, and the market is what the
+   load-time reconstruction builds from its own quotes and first currency (true of every market
+   at AD order one, see fx_reload below) *)
+Definition ok_fx (f : jfx T) : Prop :=
+  Forall ok_fxrate (jf_rates f) /\ NoDup (jf_ccys f) /\
+  rebuild_fx_expect (mkJFxData (jf_rates f) (jf_ccys f)) = Ok f.
+Lemma dec_fxdata_enc f : Forall ok_fxrate (jf_rates f) -> NoDup (jf_ccys f) ->
+  dec_fxdata (enc_fx f) = Ok (mkJFxData (jf_rates f) (jf_ccys f)).
+Proof.
+  intros FR ND. unfold dec_fxdata, enc_fx.
+  assert (A0 : dec_seq dec_fxrate (enc_seq enc_fxrate (jf_rates f)) = Ok (jf_rates f)).
+  { unfold dec_seq, enc_seq. apply omapM_map. intros x Hx. apply dec_fxrate_enc.
+    rewrite Forall_forall in FR. auto. }
+  assert (A1 : dec_ccys (enc_seq enc_ccy (jf_ccys f) : json) = Ok (jf_ccys f)).
+  { unfold dec_ccys, dec_seq, enc_seq. rewrite omapM_map by (intros; apply dec_ccy_enc).
+    cbn [omap]. rewrite dedup_id'; auto. }
+  rewrite fields_of_enc.
+  - cbn [obind map slot nth req]. rewrite A0, A1. reflexivity.
+  - apply nodup_closed. reflexivity.
+  - reflexivity.
+  - intros i Hi. field_cases i Hi; eapply chk_ok; eauto.
+Qed.
+Theorem dec_fx_enc f : ok_fx f -> dec_fx rebuild_fx_expect (enc_fx f) = Ok f.
+Proof.
+  intros [FR [ND R]]. unfold dec_fx. rewrite dec_fxdata_enc by auto. cbn [obind]. exact R.
+Qed.
+(* the saved form does not depend on the derived matrix: whatever the AD order of the market at
+   saving time, loading rebuilds the order-one market of the same quotes *)
+Lemma enc_fx_ignores_array (f : jfx T) (a : numarr T) : enc_fx (mkJFx (jf_rates f) (jf_ccys f) a) = enc_fx f.
+Proof. reflexivity. Qed.
+
+(* ------------------------------------------------------------------ splines *)
+Definition ok_spline {X} (okx : X -> Prop) (s : jspline T X) : Prop :=
+  0 <= sp_k s <= u64_max /\ 0 <= sp_n s <= u64_max /\
+  match sp_c s with None => True | Some c => fits (List.length c) /\ Forall okx c end.
+Lemma dec_pp_enc {X} (d : json -> outcome X) (e : X -> json) (okx : X -> Prop) s :
+  (forall x, okx x -> d (e x) = Ok x) -> (forall x, e x <> JNull) -> ok_spline okx s ->
+  dec_pp d (enc_pp e s) = Ok s.
+Proof.
+  intros Hd Hne [Hk [Hn Hc]]. unfold dec_pp, enc_pp.
+  pose proof (dec_usize_range _ Hk) as A0. pose proof (dec_usize_range _ Hn) as A3.
+  assert (A1 : dec_seq dec_f64 (enc_seq JNum (sp_t s)) = Ok (sp_t s)).
+  { unfold dec_seq, enc_seq. apply omapM_map. reflexivity. }
+  assert (A2 : dec_opt (dec_arr1 d) (enc_opt (enc_arr1 e) (sp_c s)) = Ok (sp_c s)).
+  { destruct (sp_c s) as [c|]; cbn [enc_opt]; [|reflexivity].
+    destruct Hc as [Hf Hx]. unfold dec_opt.
+    change (omap Some (dec_arr1 d (enc_arr1 e c)) = Ok (Some c)).
+    rewrite dec_arr1_enc; auto. intros x Hin. apply Hd. rewrite Forall_forall in Hx. auto. }
+  rewrite fields_of_enc.
+  - cbn [obind map slot nth req optf]. rewrite A0, A1, A2, A3. cbn [obind]. destruct s; reflexivity.
+  - apply nodup_closed. reflexivity.
+  - reflexivity.
+  - intros i Hi. field_cases i Hi; eapply chk_ok; eauto.
+Qed.
+Lemma dec_spline_enc {X} (d : json -> outcome X) (e : X -> json) (okx : X -> Prop) s :
+  (forall x, okx x -> d (e x) = Ok x) -> (forall x, e x <> JNull) -> ok_spline okx s ->
+  dec_spline d (enc_spline e s) = Ok s.
+Proof.
+  intros Hd Hne Hs. unfold dec_spline, enc_spline. pose proof (dec_pp_enc d e okx s Hd Hne Hs) as A.
+  rewrite fields_of_enc.
+  - cbn [obind map slot nth req]. exact A.
+  - apply nodup_closed. reflexivity.
+  - reflexivity.
+  - intros i Hi. field_cases i Hi. eapply chk_ok; eauto.
+Qed.
+
+(* ------------------------------------------------------------------ the tagged enum *)
+Definition ok_obj (o : obj T) : Prop :=
+  match o with
+  | ODual d => ok_dual d
+  | ODual2 d => ok_jdual2 d
+  | OCal c => ok_cal c
+  | OUnion u => ok_ucal u
+  | ONamed n => ok_named n
+  | OFX f => ok_fx f
+  | OCurve c => ok_curve c
+  | OSpF s => ok_spline (fun _ => True) s
+  | OSpD s => ok_spline ok_dual s
+  | OSpD2 s => ok_spline ok_jdual2 s
+  end.
+Notation load := (dec_obj rebuild_named_expect rebuild_fx_expect).
+
+Theorem dec_obj_enc o : ok_obj o -> load (enc_obj o) = Ok o.
+Proof.
+  destruct o; intros Ho; unfold dec_obj, enc_obj, tag1; cbn [ok_obj] in Ho.
+  - rewrite (dec_tagged_one _ k_Dual (fun j => omap ODual (dec_dual j))) by reflexivity.
+    rewrite dec_dual_enc by auto. reflexivity.
+  - rewrite (dec_tagged_one _ k_Dual2 (fun j => omap ODual2 (dec_dual2 j))) by reflexivity.
+    rewrite dec_dual2_enc by auto. reflexivity.
+  - rewrite (dec_tagged_one _ k_Cal (fun j => omap OCal (dec_cal j))) by reflexivity.
+    rewrite dec_cal_enc by auto. reflexivity.
+  - rewrite (dec_tagged_one _ k_UnionCal (fun j => omap OUnion (dec_ucal j))) by reflexivity.
+    rewrite dec_ucal_enc by auto. reflexivity.
+  - rewrite (dec_tagged_one _ k_NamedCal (fun j => omap ONamed (dec_named rebuild_named_expect j))) by reflexivity.
+    rewrite dec_named_enc by auto. reflexivity.
+  - rewrite (dec_tagged_one _ k_FXRates (fun j => omap OFX (dec_fx rebuild_fx_expect j))) by reflexivity.
+    rewrite dec_fx_enc by auto. reflexivity.
+  - rewrite (dec_tagged_one _ k_Curve (fun j => omap OCurve (dec_curve rebuild_named_expect j))) by reflexivity.
+    rewrite dec_curve_enc by auto. reflexivity.
+  - rewrite (dec_tagged_one _ k_PPSplineF64 (fun j => omap OSpF (dec_spline dec_f64 j))) by reflexivity.
+    rewrite (dec_spline_enc dec_f64 JNum (fun _ => True)); auto. discriminate.
+  - rewrite (dec_tagged_one _ k_PPSplineDual (fun j => omap OSpD (dec_spline dec_dual j))) by reflexivity.
+    rewrite (dec_spline_enc dec_dual enc_dual ok_dual); auto; [apply dec_dual_enc | discriminate].
+  - rewrite (dec_tagged_one _ k_PPSplineDual2 (fun j => omap OSpD2 (dec_spline dec_dual2 j))) by reflexivity.
+    rewrite (dec_spline_enc dec_dual2 enc_dual2 ok_jdual2); auto; [apply dec_dual2_enc | discriminate].
+Qed.
+
+(* the direct entry point of each type (JSON::from_json of the payload, no tag) *)
+Theorem dec_payload_enc o : ok_obj o ->
+  dec_payload rebuild_named_expect rebuild_fx_expect (Z.to_nat (kind_of o)) (enc_payload o) = Ok o.
+Proof.
+  destruct o; intros Ho; cbn [ok_obj] in Ho; unfold dec_payload, enc_payload, enc_obj, tag1, kind_of;
+    match goal with |- context [Z.to_nat ?z] => let n := eval vm_compute in (Z.to_nat z) in change (Z.to_nat z) with n end;
+    cbn [nth_error obj_variants].
+  - rewrite dec_dual_enc by auto. reflexivity.
+  - rewrite dec_dual2_enc by auto. reflexivity.
+  - rewrite dec_cal_enc by auto. reflexivity.
+  - rewrite dec_ucal_enc by auto. reflexivity.
+  - rewrite dec_named_enc by auto. reflexivity.
+  - rewrite dec_fx_enc by auto. reflexivity.
+  - rewrite dec_curve_enc by auto. reflexivity.
+  - rewrite (dec_spline_enc dec_f64 JNum (fun _ => True)); auto. discriminate.
+  - rewrite (dec_spline_enc dec_dual enc_dual ok_dual); auto; [apply dec_dual_enc | discriminate].
+  - rewrite (dec_spline_enc dec_dual2 enc_dual2 ok_jdual2); auto; [apply dec_dual2_enc | discriminate].
 Qed.
 
 End Gen.
